@@ -100,6 +100,14 @@ const BASES: &[(&str, &str)] = &[
           (type (func (param i32)))
           (func (type 2) (param i32)))"#,
     ),
+    // (f) the type section ENDS with an explicit rec group (an added type must not join it)
+    (
+        "f-recgroup-last",
+        r#"(module
+          (type (func (param i32)))
+          (rec (type $a (struct (field (ref null $b)))) (type $b (struct)))
+          (func (type 0) (param i32)))"#,
+    ),
     // (d) DUPLICATE structurally equal function types 0 and 1, a function using each
     (
         "d-duplicates",
@@ -643,6 +651,10 @@ fn menu(base: &str, hist: &[Op]) -> Vec<Op> {
             v.push(short(strukt(&[(RefNull(1), false)]), false));
             v.push(full(strukt(&[]), true, Sup::Base(1)));
         }
+        "f-recgroup-last" => {
+            v.push(short(strukt(&[(RefNull(2), false)]), false));
+            v.push(full(strukt(&[]), true, Sup::Base(2)));
+        }
         "e-subfinal" => {
             v.push(short(Comp::Array { elem: RefNull(0), mutable: true }, false));
             // equals base type 1 exactly
@@ -685,7 +697,7 @@ pub fn check(tier: Tier) -> i32 {
     let depth = tier.pick(3usize, 4usize);
     let mut run = Run::new("C13", tier, "model_checking");
     run.rule = format!(
-        "all histories of length <= {} of module.types.add_{{func,array,struct}}_type[_with_params] over a descriptor menu (22 base-independent descriptors: 5 signatures incl. funcref/externref/v128, tag None/Some, packed i8/i16 and anyref fields, mutability patterns, final/open; + per base references to / supertypes among base types, valid and invalid; + per earlier call k of the history: same content with supertype = returned id k, and a width-extended struct) on 5 bases (no type section; plain types; explicit rec group; duplicate equal function types; GC sub/final); each history = one state, rebuilt by parse + replay, invariant evaluated in every state; non-trivial class = (base, set of descriptor kinds, length, duplicate-request?, hit-on-base-type?)",
+        "all histories of length <= {} of module.types.add_{{func,array,struct}}_type[_with_params] over a descriptor menu (22 base-independent descriptors: 5 signatures incl. funcref/externref/v128, tag None/Some, packed i8/i16 and anyref fields, mutability patterns, final/open; + per base references to / supertypes among base types, valid and invalid; + per earlier call k of the history: same content with supertype = returned id k, and a width-extended struct) on 6 bases (no type section; plain types; explicit rec group; explicit rec group at the end of the type section; duplicate equal function types; GC sub/final); each history = one state, rebuilt by parse + replay, invariant evaluated in every state; non-trivial class = (base, set of descriptor kinds, length, duplicate-request?, hit-on-base-type?)",
         depth
     );
     let mut states = 0u64;
